@@ -64,11 +64,13 @@ Inductive pyval :=
 Definition f64_one : Z := 4607182418800017408.
 Definition f32_two : Z := 1073741824.
 
-(* obj.extract::<f64>(): exact floats, otherwise __float__/__index__ (int, bool) *)
+(* obj.extract::<f64>(): exact floats, otherwise __float__/__index__ (int, bool).  An int goes through
+   PyLong_AsDouble (nearest even): OverflowError exactly when the rounded value is not finite, i.e. from
+   2^1024 - 2^970 on (the midpoint between the largest double and 2^1024) - C17.v: ex_extract_f64_bound *)
 Definition extract_f64 (v : pyval) : outcome Z :=
   match v with
   | PFloat b => Value b
-  | PInt z => if Z.abs z <? 2 ^ 1023 then Value (F64.to_bits (F64.of_Z z)) else PyExc OverflowError
+  | PInt z => if Z.abs z <? 2 ^ 1024 - 2 ^ 970 then Value (F64.to_bits (F64.of_Z z)) else PyExc OverflowError
   | PBool b => Value (if b then f64_one else 0)
   | _ => PyExc TypeError
   end.
